@@ -1,0 +1,208 @@
+//go:build verif
+
+package originium
+
+import (
+	"container/list"
+	"time"
+
+	"github.com/B1NARY-GR0UP/originium/pkg/logger"
+	"github.com/B1NARY-GR0UP/originium/types"
+)
+
+// Accessors for the external runtime verification harness (build tag verif).
+// They steer the engine and expose its state, they never change its behaviour.
+
+// VerifDrain waits until every rotated memtable has been flushed
+// and the compaction which follows the flush has run.
+func (db *DB) VerifDrain() {
+	for {
+		db.mu.RLock()
+		n := db.immutables.Len()
+		db.mu.RUnlock()
+		if n == 0 {
+			return
+		}
+		time.Sleep(50 * time.Microsecond)
+	}
+}
+
+// VerifImmutables number of rotated memtables which are not flushed yet.
+func (db *DB) VerifImmutables() int {
+	db.mu.RLock()
+	defer db.mu.RUnlock()
+	return db.immutables.Len()
+}
+
+// VerifReadMark current value of the read watermark (the version discard watermark).
+func (db *DB) VerifReadMark() uint64 {
+	return db.oracle.readMark.DoneUntil()
+}
+
+// VerifReadTs snapshot timestamp of the transaction.
+func (t *Txn) VerifReadTs() uint64 {
+	return t.readTs
+}
+
+// VerifLevels gives access to the level manager of an opened DB.
+func (db *DB) VerifLevels() *VerifLevels {
+	return &VerifLevels{lm: db.manager}
+}
+
+// VerifLevels wraps a level manager.
+type VerifLevels struct {
+	lm *levelManager
+	// only set for a standalone level manager
+	own *DB
+}
+
+// VerifNewLevels creates a standalone level manager (no memtable, no background goroutine) on dir.
+func VerifNewLevels(dir string, l0TargetNum, ratio, dataBlockSize int) *VerifLevels {
+	db := &DB{
+		dir:    dir,
+		logger: logger.GetLogger(),
+		oracle: newOracle(),
+		config: Config{
+			L0TargetNum:            l0TargetNum,
+			LevelRatio:             ratio,
+			DataBlockByteThreshold: dataBlockSize,
+		},
+	}
+	return &VerifLevels{lm: newLevelManager(db), own: db}
+}
+
+// Close stops the goroutines of a standalone level manager.
+func (v *VerifLevels) Close() {
+	if v.own != nil {
+		v.own.oracle.Stop()
+	}
+}
+
+// SetWatermark raises the version discard watermark of a standalone level manager to w.
+func (v *VerifLevels) SetWatermark(w uint64) {
+	if v.own == nil || w == 0 {
+		return
+	}
+	v.own.oracle.readMark.Done(w)
+	for v.own.oracle.readMark.DoneUntil() < w {
+		time.Sleep(20 * time.Microsecond)
+	}
+}
+
+// Watermark current version discard watermark.
+func (v *VerifLevels) Watermark() uint64 {
+	return v.lm.db.oracle.discardAtOrBelow()
+}
+
+// Flush entries (sorted, unique versioned keys) to a new L0 table.
+func (v *VerifLevels) Flush(entries []types.Entry) error {
+	return v.lm.flushToL0(entries)
+}
+
+func (v *VerifLevels) CheckAndCompact() {
+	v.lm.checkAndCompact()
+}
+
+// CompactL0 returns false if there is no L0 table.
+func (v *VerifLevels) CompactL0() bool {
+	v.lm.mu.Lock()
+	defer v.lm.mu.Unlock()
+	if len(v.lm.levels) == 0 || v.lm.levels[0].Len() == 0 {
+		return false
+	}
+	v.lm.compactL0()
+	return true
+}
+
+// CompactLN returns false if there is no table in level n.
+func (v *VerifLevels) CompactLN(n int) bool {
+	v.lm.mu.Lock()
+	defer v.lm.mu.Unlock()
+	if n < 1 || len(v.lm.levels) <= n || v.lm.levels[n].Len() == 0 {
+		return false
+	}
+	v.lm.compactLN(n)
+	return true
+}
+
+// Lookup the entry (tombstones included) a read of key at ts gets from the tables.
+func (v *VerifLevels) Lookup(key string, ts uint64) (types.Entry, bool) {
+	target := types.KeyWithTs(key, ts)
+	entry, ok := v.lm.searchLowerBound(target)
+	if ok && types.IsSameKey(target, entry.Key) {
+		return entry, true
+	}
+	return types.Entry{}, false
+}
+
+// Recover returns a new standalone level manager rebuilt from the files of the directory.
+// The second result is the max version found.
+func (v *VerifLevels) Recover() (*VerifLevels, int64) {
+	lm := v.lm
+	r := VerifNewLevels(lm.dir, lm.l0TargetNum, lm.ratio, lm.dataBlockSize)
+	maxVersion := r.lm.recover()
+	return r, maxVersion
+}
+
+// VerifTable content of one table file.
+type VerifTable struct {
+	Level  int
+	Idx    int
+	Blocks int
+	// number of entries per data block
+	BlockLens []int
+	Entries   []types.Entry
+}
+
+func (v *VerifLevels) eachTable(fn func(level int, th tableHandle)) {
+	v.lm.mu.Lock()
+	defer v.lm.mu.Unlock()
+	for level, tables := range v.lm.levels {
+		var e *list.Element
+		for e = tables.Front(); e != nil; e = e.Next() {
+			fn(level, e.Value.(tableHandle))
+		}
+	}
+}
+
+// Tables reads every table back from its file, in list order.
+func (v *VerifLevels) Tables() []VerifTable {
+	var res []VerifTable
+	v.eachTable(func(level int, th tableHandle) {
+		t := VerifTable{Level: level, Idx: th.levelIdx, Blocks: len(th.dataBlockIndex.Entries)}
+		// block by block, the way a lookup reads them
+		for _, ie := range th.dataBlockIndex.Entries {
+			block := v.lm.fetch(level, th.levelIdx, ie.DataHandle)
+			t.BlockLens = append(t.BlockLens, len(block.Entries))
+			t.Entries = append(t.Entries, block.Entries...)
+		}
+		res = append(res, t)
+	})
+	return res
+}
+
+// LevelLens number of tables per level.
+func (v *VerifLevels) LevelLens() []int {
+	v.lm.mu.Lock()
+	defer v.lm.mu.Unlock()
+	res := make([]int, len(v.lm.levels))
+	for i, l := range v.lm.levels {
+		res[i] = l.Len()
+	}
+	return res
+}
+
+// FilterMisses returns the versioned keys stored in a table whose filter denies their user key,
+// and the number of (table, entry) pairs which were examined.
+func (v *VerifLevels) FilterMisses() (misses []string, examined int) {
+	v.eachTable(func(level int, th tableHandle) {
+		block := v.lm.fetch(level, th.levelIdx, th.dataBlockIndex.DataBlock)
+		for _, entry := range block.Entries {
+			examined++
+			if !th.filter.Contains(types.ParseKey(entry.Key)) {
+				misses = append(misses, entry.Key)
+			}
+		}
+	})
+	return misses, examined
+}
